@@ -134,6 +134,12 @@ def build():
              ensures=[
                  ('known_children_move_as_the_event_says', 'final(self).children@.dom() =~= children_after(old(self).children@.dom(), event)'),
                  ('known_classes_move_as_the_event_says', 'final(self).resources@.dom() =~= classes_after(old(self).resources@.dom(), event)'),
+                 ('version_untouched', 'final(self).version == old(self).version'),
              ]),
+        # the version laws that unit c07_command assumes of every aggregate, for the CA aggregate
+        U.fn(CA, 'CertAuth', 'version', trait='Aggregate', as_inherent=True, ensures=[('is_the_field', 'r == self.version')]),
+        U.fn(CA, 'CertAuth', 'increment_version', trait='Aggregate', as_inherent=True, requires=[('not_at_the_end_of_u64', 'old(self).version < u64::MAX')],
+             ensures=[('adds_one_and_nothing_else', '''final(self).version == old(self).version + 1 && final(self).children == old(self).children
+                        && final(self).resources == old(self).resources && final(self).parents == old(self).parents && final(self).handle == old(self).handle''')]),
     ])
     return U
